@@ -49,6 +49,8 @@ pub fn fn_bases() -> Vec<Base> {
                (func $l4 (type $v) (i32.const 0x5F000005) drop
                  (i32.const 0x51000013) drop (return_call $l2))"#,
         ),
+        // type 1 is a structurally identical twin of type 0
+        mk("fn+twin-type", r#"(type $v2 (func))"#),
         mk("fn+global-init", r#"(global $gf funcref (ref.func $l1)) (global $gf2 (mut funcref) (ref.func $fi1))"#),
         mk("fn+elem-expr", r#"(elem (i32.const 4) funcref (ref.func $l2) (ref.func $fi1)) (elem funcref (ref.func $l1) (ref.null func))"#),
         mk("fn+table-init", r#"(table $t2 2 funcref (ref.func $l1))"#),
